@@ -7,6 +7,7 @@ only be changed, never the statements.
 import TzVerif.Model.DateTime
 import TzVerif.Spec.Calendar
 import TzVerif.Proofs.Calendar
+import TzVerif.Proofs.SrcEqCal
 
 namespace TzVerif.C01
 open TzVerif.Model TzVerif.Gen
@@ -60,5 +61,30 @@ theorem year_day (t ns : Int) (c : UtcDateTime) (h : UtcDateTime.fromTimespec t 
 example : UtcDateTime.fromTimespec 1709251199 7 =
     .ok { year := 2024, month := 2, monthDay := 29, hour := 23, minute := 59, second := 59, nanoseconds := 7 } := by
   decide
+
+/-! ### The same about the source text
+`TzVerif.Src.*` is the Rust source translated to Lean on every run (tools/rs2lean.py, DESIGN §13); the
+equalities below tie every theorem of this file, which is about the model, to the code as it is now. -/
+
+theorem translated_source_is_the_model :
+    (∀ t ns, Src.UtcDateTime.from_timespec t ns = UtcDateTime.fromTimespec t ns) ∧
+    (∀ y m d, Src.week_day y m d = weekDay y m d) ∧
+    (∀ y m d, 1 ≤ m ∧ m ≤ 12 → 1 ≤ d ∧ d ≤ 255 → Src.year_day y m d = yearDay y m d) ∧
+    (∀ y, Src.is_leap_year y = isLeapYear y) ∧ (∀ a b, Src.min a b = minI a b) ∧
+    (∀ v, Src.try_into_i32 v = tryIntoI32 v) :=
+  ⟨Proofs.SrcEq.utc_from_timespec_eq, Proofs.SrcEq.week_day_eq, fun y m d hm hd => Proofs.SrcEq.year_day_eq y m d hm hd,
+   Proofs.SrcEq.is_leap_year_eq, Proofs.SrcEq.min_eq, Proofs.SrcEq.try_into_i32_eq⟩
+
+/-- `fields_correct`, `accepted_iff` and `refused` about the translated `UtcDateTime::from_timespec` -/
+theorem fields_correct_src (t ns : Int) (c : UtcDateTime) (h : Src.UtcDateTime.from_timespec t ns = .ok c) :
+    Spec.ValidDate c.year c.month c.monthDay ∧
+    0 ≤ c.hour ∧ c.hour ≤ 23 ∧ 0 ≤ c.minute ∧ c.minute ≤ 59 ∧ 0 ≤ c.second ∧ c.second ≤ 59 ∧
+    Spec.seconds c.year c.month c.monthDay c.hour c.minute c.second = t ∧
+    c.nanoseconds = ns ∧ i32Min ≤ c.year ∧ c.year ≤ i32Max :=
+  fields_correct t ns c (Proofs.SrcEq.utc_from_timespec_eq t ns ▸ h)
+
+theorem accepted_iff_src (t ns : Int) :
+    (∃ c, Src.UtcDateTime.from_timespec t ns = .ok c) ↔ (MIN_UNIX_TIME ≤ t ∧ t ≤ MAX_UNIX_TIME) := by
+  rw [Proofs.SrcEq.utc_from_timespec_eq]; exact accepted_iff t ns
 
 end TzVerif.C01
